@@ -15,8 +15,8 @@ EXPLANATION = (
     "combinations of its six criteria on a registry of four configurations: exactly the configurations matching every given criterion are "
     "removed, from a snapshot. C16.CONTAIN: trigger_event is interpreted with three accepting callbacks where each may raise: every "
     "callback is invoked exactly once with the event on every path and nothing escapes. C16.REGISTRY: the callbacks list is written only "
-    "by onevent (append of the new configuration, returning its uuid), rmonevent (remove) and the constructor, and trigger_event reads it "
-    "at dispatch time. C16.IFF: abstract message streams (as in C15) are fed to a client with one catch-all callback: for every update "
+    "by onevent (append of the new configuration, returning its uuid), rmonevent (remove) and the constructor, is never rebound while "
+    "trigger_event walks the live list, and trigger_event reads it at dispatch time. C16.IFF: abstract message streams (as in C15) are fed to a client with one catch-all callback: for every update "
     "step the delivered ValueUpdate/StateUpdate events are exactly the changes between the mirror before and after, each once, with "
     "old = previous mirror value and new = current value; a definition raises DefinitionUpdate. C16.CHAIN: on re-definition of an "
     "existing property the events' old values must be the previous mirror values and unchanged values must raise nothing."
